@@ -1,7 +1,7 @@
 ------------------------------- MODULE LifeMC -------------------------------
 (* Model-checking instances of Lifecycle: catalogue and history templates.   *)
 (* Data ids are self-describing ("b:<name>", "r:<weather>:<observed variant>", *)
-(* "x:<weather>" = a reporting object of a foreign family); the driver        *)
+(* "x:<weather>" / "y:<weather>" = a reporting object of a foreign family: another granularity / the sibling family); the driver        *)
 (* realises them by name (drivers/lifecat.py), the attributes below only      *)
 (* steer the bounded model - trace validation binds them from the trace.      *)
 EXTENDS Lifecycle
@@ -40,7 +40,8 @@ CatAll ==
        [] d = "r:wweek:absent"   -> R("wweek", "C", "absent")
        [] d = "r:wday:orig"      -> R("wday", "C", "orig")
        [] d = "r:weast:orig"     -> R("weast", "E", "orig")
-       [] d = "x:wmonth"         -> X("wmonth")]
+       [] d = "x:wmonth"         -> X("wmonth")
+       [] d = "y:wmonth"         -> X("wmonth")]        \* foreign too: the sibling family (daily <-> billing, hourly <-> CalTRACK hourly)
 
 \* ---- history templates.  "sweep" is not an operation of Lifecycle: the templates below use only real operations.
 T_gate  == << {"new"}, {"sweep", "fit"}, {"sweep", "fit", "save"}, {"sweep", "save", "restart", "load"}, {"sweep", "restart", "load"}, {"sweep", "load"}, {"sweep"} >>
